@@ -56,10 +56,32 @@ theorem postOf_isSome_iff (cache : String → Option Ent) (r : Run) (it : Item) 
 
 /-- an executed job has a usable output iff its command exited 0 and wrote the requested file -/
 theorem entOf_usable_iff (r : Run) (j : String) (a : Nat) :
-    ((entOf r j a).code = 0 ∧ (entOf r j a).payload.isSome) ↔ outcome (r.plan j) a = (0, true) := by
+    ((entOf r j a).code = 0 ∧ (entOf r j a).payload.isSome) ↔ jobOutcome (r.plan j) a = (0, true) := by
   unfold entOf
-  rcases h : outcome (r.plan j) a with ⟨c, w⟩
+  rcases h : jobOutcome (r.plan j) a with ⟨c, w⟩
   cases w <;> by_cases hc : c = 0 <;> simp [hc]
 
+
+/-- the job's return code is 0 iff every one of its commands returned 0 (at that attempt) -/
+theorem jobOutcome_code_zero_iff (ps : List Plan) (a : Nat) :
+    (jobOutcome ps a).1 = 0 ↔ ∀ p ∈ ps, (outcome p a).1 = 0 := by
+  induction ps with
+  | nil => simp [jobOutcome]
+  | cons p ps ih =>
+    unfold jobOutcome
+    by_cases h : (outcome p a).1 = 0
+    · simp [h, ih]
+    · simp [h]
+
+/-- … otherwise it is the return code of the first failing command; nothing a later command does can change it -/
+theorem jobOutcome_first_failure (pre : List Plan) (p : Plan) (post : List Plan) (a : Nat)
+    (hpre : ∀ q ∈ pre, (outcome q a).1 = 0) (hp : (outcome p a).1 ≠ 0) :
+    (jobOutcome (pre ++ p :: post) a).1 = (outcome p a).1 := by
+  induction pre with
+  | nil => simp [jobOutcome, hp]
+  | cons q pre ih =>
+    have hq := hpre q (by simp)
+    simp only [List.cons_append, jobOutcome, hq, ne_eq, not_true_eq_false, if_false]
+    exact ih (fun x hx => hpre x (by simp [hx]))
 
 end Molli.Lemmas.Jobmap
